@@ -361,6 +361,11 @@ def load_patches(
     if patch_centers is not None:
         if isinstance(patch_centers, Catalog):
             patch_centers = patch_centers.get_centers()
+        if patch_ids != list(range(len(patch_centers))):
+            # empty patches are not supported, centers would be assigned wrongly
+            if parallel.on_root():
+                (cache_directory / PATCH_INFO_FILE).unlink()  # invalidate cache
+            raise ValueError("some patch centers have no data assigned")
         patch_arg_iter = zip(patch_paths, patch_centers)
 
     else:
